@@ -43,6 +43,10 @@ CONSTANTS
                  \* guards at delivery and the join when the decision resumes (JoinResume); FALSE: the shipped classes
   JoinCacheFirst,\* TRUE: join_circuit registers the CreatedRequestCache (which raises for a circuit id that has one) BEFORE it
                  \* installs the exit socket (the code); FALSE: the other order (negative control for KeyAgreement)
+  DataGuard,     \* TRUE: the owner of a circuit that is still being extended takes no data from it (the code since the fix);
+                 \* FALSE: the pinned earlier behaviour - a relay wraps whatever arrives on the way back, also an unencrypted
+                 \* cell, and an owner who knows only that relay as a hop peels the layer and delivers the forged data
+                 \* (negative control for ReturnIntegrity)
   CandsGuard,    \* TRUE: an answer whose candidate list does not decode ends the circuit (the code since the fix); FALSE:
                  \* the pinned earlier behaviour (negative control for HopByRightAnswer)
   RelayOnce,     \* TRUE: a created for a circuit that was already turned into a relay is dropped (the code since the fix);
@@ -499,11 +503,13 @@ OnData(d) ==
   /\ d \in net /\ d.t = "cell" /\ d.dst \in Node /\ Accepted(d.dst, d) /\ d.m.t = "data"
   /\ LET n == d.dst  m == d.m  cid == d.cid IN
      \* ("circuit and origin and ..." in the code: the origin tuple is always truthy)
-     IF Has(circ[n], cid) /\ d.src = FirstHopAddr(circ[n][cid]) /\ "nested" \in DOMAIN m /\ "altered" \notin DOMAIN m THEN
+     IF Has(circ[n], cid) /\ d.src = FirstHopAddr(circ[n][cid]) /\ "nested" \in DOMAIN m /\ "altered" \notin DOMAIN m
+        /\ (DataGuard => CState(circ[n][cid]) # "EXTENDING") THEN
         \* a packet of the tunnel community itself, handled as a message: the data message inside names a circuit whose
         \* first hop it did not come from - nothing is delivered (OutsideNested)
         /\ hist' = hist /\ exit' = exit
-     ELSE IF Has(circ[n], cid) /\ d.src = FirstHopAddr(circ[n][cid]) THEN
+     ELSE IF Has(circ[n], cid) /\ d.src = FirstHopAddr(circ[n][cid]) /\ (DataGuard => CState(circ[n][cid]) # "EXTENDING") THEN
+        \* (a circuit that is still being extended has no exit yet: its owner takes no data from it - the code since the fix)
         /\ hist' = [hist EXCEPT !.origLog = @ \cup {[n |-> n, cid |-> cid, p |-> Seen(m), origin |-> m.origin]}]
         /\ exit' = exit
      ELSE IF m.dest # Null /\ Has(exit[n], cid) /\ (exit[n][cid].enabled \/ d.src = exit[n][cid].prev) THEN
